@@ -31,9 +31,11 @@ func runWriteFaults(src *choice.Source, st *Stats) (fs []Finding) {
 		name string
 		run  func(w *simio.Writer) error
 	}
-	segs := model2d.NewMesh()
+	// a slice, not a model2d.Mesh: iterating a mesh would put the rows in Go map
+	// order, which the simulator does not own
+	var segs []*model2d.Segment
 	for _, t := range tris {
-		segs.Add(&model2d.Segment{model2d.XY(t[0].X, t[0].Y), model2d.XY(t[1].X, t[1].Y)})
+		segs = append(segs, &model2d.Segment{model2d.XY(t[0].X, t[0].Y), model2d.XY(t[1].X, t[1].Y)})
 	}
 	writers := []writer{
 		{"WriteSTL", func(w *simio.Writer) error { return model3d.WriteSTL(w, tris) }},
@@ -46,11 +48,11 @@ func runWriteFaults(src *choice.Source, st *Stats) (fs []Finding) {
 		{"SegmentCSVWriter", func(w *simio.Writer) error {
 			cw := fileformats.NewSegmentCSVWriter(w)
 			var first error
-			segs.Iterate(func(s *model2d.Segment) {
+			for _, s := range segs {
 				if err := cw.Write([4]float64{s[0].X, s[0].Y, s[1].X, s[1].Y}); err != nil && first == nil {
 					first = err
 				}
-			})
+			}
 			return first
 		}},
 		{"STLWriter", func(w *simio.Writer) error {
@@ -67,6 +69,9 @@ func runWriteFaults(src *choice.Source, st *Stats) (fs []Finding) {
 		}},
 	}
 	wr := writers[src.Intn(len(writers))]
+	if wr.name == "Write3MF" {
+		st.MapDep = "Write3MF serialises through a Mesh (Go map order) and deflate, so the file length varies between runs"
+	}
 	clean := simio.NewWriter(simio.WriteFaults{})
 	if err := wr.run(clean); err != nil {
 		return []Finding{{"write_fault|" + wr.name + "|clean-error", err.Error()}}
